@@ -291,4 +291,33 @@ theorem closeAfter_loop (ax : Option Axis) (l : List Nat) (c s : Ctx) (k : Nat) 
   rw [List.getElem?_eq_getElem (by omega)]
   rfl
 
+/-! ### operands of `and` / `or` -/
+
+/-- value of `l or r` from the operand values (Python `or` short-circuit; `err` = type error) -/
+def orVal (x y : Val) : Val :=
+  match ebv x with
+  | some false => (match ebv y with | some b => .bool b | none => .err)
+  | some true => .bool true
+  | none => .err
+
+def andVal (x y : Val) : Val :=
+  match ebv x with
+  | some true => (match ebv y with | some b => .bool b | none => .err)
+  | some false => .bool false
+  | none => .err
+
+theorem eval_or (e₁ e₂ : Expr) (f : Focus) :
+    eval m a (.or e₁ e₂) f = orVal (eval m a e₁ f) (eval m a e₂ f) := by
+  simp only [eval, orVal]
+  generalize ebv (eval m a e₁ f) = x
+  generalize ebv (eval m a e₂ f) = y
+  rcases x with _ | (_ | _) <;> rcases y with _ | (_ | _) <;> rfl
+
+theorem eval_and (e₁ e₂ : Expr) (f : Focus) :
+    eval m a (.and e₁ e₂) f = andVal (eval m a e₁ f) (eval m a e₂ f) := by
+  simp only [eval, andVal]
+  generalize ebv (eval m a e₁ f) = x
+  generalize ebv (eval m a e₂ f) = y
+  rcases x with _ | (_ | _) <;> rcases y with _ | (_ | _) <;> rfl
+
 end EPV.XP
